@@ -1560,9 +1560,18 @@ class Tensor:
 
         # Only call Fiber.swapRanks if there are actually payloads to swap
         if not all(fiber.isEmpty() for fiber in self.ranks[depth].fibers):
-            root = self._modifyRoot(Fiber.swapRanks,
-                                    Fiber.swapRanksBelow,
-                                    depth=depth)
+            # Some of the fibers at this depth may still be empty, those
+            # have nothing to swap and stay empty
+            def swap(fiber):
+                if fiber.isEmpty():
+                    return fiber._newFiber([], [], default=Fiber())
+
+                return fiber.swapRanks()
+
+            def swapBelow(fiber, depth=0):
+                return fiber.updatePayloadsBelow(swap, depth=depth)
+
+            root = self._modifyRoot(swap, swapBelow, depth=depth)
         else:
             root = copy.deepcopy(self.getRoot())
 
